@@ -161,7 +161,21 @@ func hrCookieCell(t *testing.T, rec *Rec, g *Gates, scn string, cell map[string]
 		sid = s.Sid
 		obs["status"] = 101
 	} else {
+		hold, _ := cell["hold"].(bool)
+		if hold {
+			g.Park("handshake.constructed", true)
+		}
 		s, r := w.Handshake(4, false, false, ReqOpt{})
+		if hold {
+			g.Park("handshake.constructed", false)
+			g.ReleaseAll()
+			synctest.Wait()
+			for _, p := range r.Pkts {
+				if p.Type == "open" {
+					s.Sid = openSid(p.Data)
+				}
+			}
+		}
 		hdr, sid = r.Hdr, s.Sid
 		obs["status"] = r.Status
 		if step == "postclose" || step == "pollclose" {
@@ -279,6 +293,21 @@ func hrCorsCell(t *testing.T, rec *Rec, g *Gates, scn string, cell map[string]an
 	}
 	r := w.StartReq("other", nil, ReqOpt{Method: method, Query: "EIO=4&transport=polling", Hdr: hdr})
 	synctest.Wait()
+	if st, _ := cell["step"].(string); st == "bigpoll" && r.Status == 200 {
+		// a later poll of the same session, large enough to be compressed
+		sid := ""
+		for _, p := range DecodeV4Payload(r.Body) {
+			if p.Type == "open" {
+				sid = openSid(p.Data)
+			}
+		}
+		if sid != "" {
+			w.Send(sid, SendOpt{Size: 4000})
+			hdr.Set("Accept-Encoding", "gzip")
+			r = w.StartReq("other", nil, ReqOpt{Method: "GET", Query: "EIO=4&transport=polling&sid=" + sid, Hdr: hdr})
+			synctest.Wait()
+		}
+	}
 	obs := map[string]any{"status": r.Status, "created": created > 0, "acao": "", "acaoIsRequestOrigin": false, "varyOrigin": false, "acac": ""}
 	if r.Hdr != nil {
 		acao := r.Hdr.Get("Access-Control-Allow-Origin")
